@@ -44,8 +44,15 @@ def operands(kind, dtype, which):
     v = PatternedTensor(tens(P, kind, dtype))
     if which == 'row':
         yield 'pt_expand', v.unsqueeze(1).expand(n, n), flat
+        # operands that the operation itself has to BROADCAST: a column (n, 1)
+        yield 'pt_bcast_col', v.unsqueeze(1), flat
+        yield 'tensor_bcast_col', tens(P, kind, dtype).unsqueeze(1), flat
     else:
         yield 'pt_expand', v.unsqueeze(0).expand(n, n), flat
+        # ... a vector of lower rank (n,) and a row (1, n)
+        yield 'pt_bcast_vec', PatternedTensor(tens(P, kind, dtype)), flat
+        yield 'pt_bcast_row', v.unsqueeze(0), flat
+        yield 'tensor_bcast_vec', tens(P, kind, dtype), flat
     defaults = [('z', ZERO[kind]), ('o', ONE[kind])] + ([('i', INF)] if kind != 'bool' else [])
     for dn, d in defaults:
         k = PhysicalAxis(n)
@@ -78,9 +85,12 @@ def drive_kind(args):
     # --- P1: elementwise under representations
     rows = list(operands(kind, dtype, 'row'))
     cols = list(operands(kind, dtype, 'col'))
-    for (ta, a, fa) in rows:
-        for (tb, b, fb) in cols:
-            if (ta == 'tensor') != (tb == 'tensor'):
+    pairs = [(x, y) for x in rows for y in cols]
+    # broadcast operands also FIRST (a vector or a row against a full matrix / a column)
+    pairs += [(y, x) for x in rows for y in cols if 'bcast' in y[0]]
+    for ((ta, a, fa), (tb, b, fb)) in pairs:
+        if True:
+            if ta.startswith('tensor') != tb.startswith('tensor'):
                 continue
             for op in ('add', 'mul', 'sub'):
                 c = dict(base, kind='ew', op=op, A=fa, B=fb, tag=[kind, dtname, op, ta, tb], R=[])
@@ -89,8 +99,9 @@ def drive_kind(args):
                     c['R'] = proj(r, kind, dtype)
                     if op == 'sub':
                         # normative: same as on Tensors holding the same dense values
-                        n = int(math.isqrt(len(fa)))
-                        rt = sr.sub(tens(fa, kind, dtype, (n, n)), tens(fb, kind, dtype, (n, n)))
+                        # (operands of the SAME SHAPES as the patterned ones: a semiring's sub need not broadcast)
+                        dn = lambda x: x.to_dense() if hasattr(x, 'to_dense') else x
+                        rt = sr.sub(dn(a).clone(), dn(b).clone())
                         c['kind'] = 'ewsame'
                         c['Rt'] = proj(rt, kind, dtype)
                 except Exception as e:  # noqa
